@@ -17,6 +17,7 @@ import (
 	abci "github.com/cometbft/cometbft/abci/types"
 	"github.com/cosmos/cosmos-sdk/codec"
 	sdk "github.com/cosmos/cosmos-sdk/types"
+	authtypes "github.com/cosmos/cosmos-sdk/x/auth/types"
 	banktypes "github.com/cosmos/cosmos-sdk/x/bank/types"
 	crisistypes "github.com/cosmos/cosmos-sdk/x/crisis/types"
 	stakingtypes "github.com/cosmos/cosmos-sdk/x/staking/types"
@@ -106,6 +107,31 @@ var genesisVariants = map[string]func(gs map[string]json.RawMessage, cdc codec.C
 			Topics:  map[string]*aoltypes.Topic{B.Bech + "/g": {TotalWriters: 1, TotalRecords: 1}},
 			Writers: map[string]*aoltypes.Writer{B.Bech + "/g/" + W.Bech: {Moniker: "w"}}, // nano_timestamp omitted
 			Records: map[string]*aoltypes.Record{B.Bech + "/g/0": {Key: []byte("k"), Value: []byte("v"), WriterAddress: W.Bech}}}
+		gs["aol"] = cdc.MustMarshalJSON(&g)
+	},
+	// many topics of one owner: some without records, some without writers, the rest with several records spread over two topics
+	"aol-empty-and-busy-topics": func(gs map[string]json.RawMessage, cdc codec.Codec) {
+		B, W := world.NewAccount("B"), world.NewAccount("W")
+		g := aoltypes.GenesisState{Owners: map[string]*aoltypes.Owner{B.Bech: {TotalTopics: 12}}, Topics: map[string]*aoltypes.Topic{},
+			Writers: map[string]*aoltypes.Writer{}, Records: map[string]*aoltypes.Record{}}
+		for i := 0; i < 12; i++ {
+			tn := fmt.Sprintf("g%02d", i)
+			if i == 0 {
+				tn = "g" // the entry the query list asks for
+			}
+			t := &aoltypes.Topic{Description: tn}
+			if i%4 != 3 { // every fourth topic has no writer
+				t.TotalWriters = 1
+				g.Writers[B.Bech+"/"+tn+"/"+W.Bech] = &aoltypes.Writer{Moniker: "w", NanoTimestamp: 5}
+			}
+			if i%3 != 2 && i%4 != 3 { // a third of the topics (and those without writers) hold no record
+				t.TotalRecords = 3
+				for r := 0; r < 3; r++ {
+					g.Records[fmt.Sprintf("%s/%s/%d", B.Bech, tn, r)] = &aoltypes.Record{Key: []byte(fmt.Sprintf("%s-%d", tn, r)), Value: []byte("v"), NanoTimestamp: int64(7 + r), WriterAddress: W.Bech}
+				}
+			}
+			g.Topics[B.Bech+"/"+tn] = t
+		}
 		gs["aol"] = cdc.MustMarshalJSON(&g)
 	},
 	"pnft-mixed": func(gs map[string]json.RawMessage, cdc codec.Codec) {
@@ -340,6 +366,13 @@ func (e *twinEnv) mixedOps() []mixedOp {
 		// a brand-new denom while the x/nft module account already exists (whatever a process does "the first time" must not show)
 		one("CreateDenom(dz,B)", s(e.B), pnfttypes.NewMsgCreateDenomRequest("dz", "SZ", "late denom", "", "", "", e.B.Bech, "")),
 		one("Mint(dz,t,B)", s(e.B), pnfttypes.NewMsgMintPNFTRequest("dz", "t", "tok", "", "", "", e.B.Bech, "")),
+		// plain transfers to module accounts other than gov's: refused (blocked addresses), by every node alike
+		one("Send(A->fee_collector,3umed)", s(e.A), banktypes.NewMsgSend(e.A.Addr, authtypes.NewModuleAddress(authtypes.FeeCollectorName), sdk.NewCoins(sdk.NewInt64Coin("umed", 3)))),
+		one("Send(A->bonded_tokens_pool,3umed)", s(e.A), banktypes.NewMsgSend(e.A.Addr, authtypes.NewModuleAddress(stakingtypes.BondedPoolName), sdk.NewCoins(sdk.NewInt64Coin("umed", 3)))),
+		one("Send(A->distribution,3umed)", s(e.A), banktypes.NewMsgSend(e.A.Addr, authtypes.NewModuleAddress("distribution"), sdk.NewCoins(sdk.NewInt64Coin("umed", 3)))),
+		one("Send(A->mint,3umed)", s(e.A), banktypes.NewMsgSend(e.A.Addr, authtypes.NewModuleAddress("mint"), sdk.NewCoins(sdk.NewInt64Coin("umed", 3)))),
+		one("Send(A->nft,3umed)", s(e.A), banktypes.NewMsgSend(e.A.Addr, authtypes.NewModuleAddress("nft"), sdk.NewCoins(sdk.NewInt64Coin("umed", 3)))),
+		one("Send(A->transfer,3umed)", s(e.A), banktypes.NewMsgSend(e.A.Addr, authtypes.NewModuleAddress("transfer"), sdk.NewCoins(sdk.NewInt64Coin("umed", 3)))),
 	}
 }
 
@@ -351,7 +384,7 @@ func (e *twinEnv) enumCount() int { return 18 }
 // on afterwards: leftovers of removed objects must not be treated differently by a node that restarted.
 func cleanupCases(e *twinEnv, shard, n int) []*histCase {
 	var out []*histCase
-	for i, blocks := range [][][]int{{{18}, {19}, {0, 2}}, {{18, 19}, {}, {8}}, {{4}, {18}, {19, 20}, {2}}, {{21}, {22, 21}}, {{23}, {2, 24}, {23}}, {{25}, {26, 0}}, {{2}, {25, 26}}} {
+	for i, blocks := range [][][]int{{{18}, {19}, {0, 2}}, {{18, 19}, {}, {8}}, {{4}, {18}, {19, 20}, {2}}, {{21}, {22, 21}}, {{23}, {2, 24}, {23}}, {{25}, {26, 0}}, {{2}, {25, 26}}, {{27, 28, 29}, {30, 31, 32}}} {
 		if (i+9)%n != shard {
 			continue
 		}
